@@ -27,9 +27,9 @@ RULE = ("fit cases: random/templated point sets (3-6 non-collinear points, trian
         "the real stage sequence; distinct = (residue, position, dihedral index, angle class)")
 ASSUMPTIONS = ["numpy SVD (LAPACK) is the trusted reference for the best-fit proper rotation",
                "point sets with triangle area <= 0.05 A^2 are excluded as degenerate (property: non-collinear)"]
-MIN = {"quick": {"fit_calls": 15000, "equivariance_checks": 3000, "torsion_calls": 1500, "tetra_calls": 150, "postrun_structures": 5, "postrun_torsion_calls": 150},
+MIN = {"quick": {"fit_calls": 15000, "equivariance_checks": 3000, "torsion_calls": 1500, "tetra_calls": 150, "postrun_structures": 5, "postrun_torsion_calls": 150, "flat_side_chains": 15},
        "thorough": {"fit_calls": 500000, "equivariance_checks": 100000, "torsion_calls": 40000,
-                    "tetra_calls": 3000, "postrun_structures": 250, "postrun_torsion_calls": 8000}}
+                    "tetra_calls": 3000, "postrun_structures": 250, "postrun_torsion_calls": 8000, "flat_side_chains": 600}}
 
 
 def cases(tier, seed):
